@@ -1552,7 +1552,18 @@ class Interp:
                 yield from self.exec_block(node.orelse, st1)
 
     def st_With(self, node, st):
-        raise Unsupported(f"with statement at line {node.lineno}")
+        """`with <expr> [as target]: body` -- the context expression is evaluated (through its contract), bound, and the body runs;
+        __enter__ is taken to return the object itself and __exit__ to do nothing observable and to re-raise (file objects)."""
+        if len(node.items) != 1:
+            raise Unsupported(f"with statement with {len(node.items)} items at line {node.lineno}")
+        item = node.items[0]
+        for st1, v in self.ev(item.context_expr, st):
+            if v is RAISE:
+                yield st1, Flow("raise")
+                continue
+            if item.optional_vars is not None:
+                self.assign(item.optional_vars, v, st1)
+            yield from self.exec_block(node.body, st1)
 
     # -------------------------------------------------------------- loops
     def st_For(self, node, st):
